@@ -133,8 +133,8 @@ def check_case(case):
     r0, w0 = bl[0]
     variants["first-ballot-split"] = (cands, [(r0, w0 / 3), (r0, w0 * 2 / 3)] + bl[1:])
     variants["first-ballot-split-apart"] = (cands, [(r0, w0 / 4)] + bl[1:] + [(r0, w0 * 3 / 4)])
-    big = F(2000003, 3000001)
-    variants["first-ballot-split-large-denominators"] = (cands, [(r0, w0 * big)] + bl[1:] + [(r0, w0 * (1 - big))])
+    big = F(1234577, 2000003)
+    variants["first-ballot-split-large-denominators"] = (cands, [(r0, w0 * big * F(3, 7))] + bl[1:] + [(r0, w0 * (1 - big)), (r0, w0 * big * F(4, 7))])
     variants["candidates-reversed"] = (list(reversed(cands)), bl)
     variants["candidates-rotated"] = (cands[1:] + cands[:1], bl)
     for name, (c2, b2) in variants.items():
